@@ -87,6 +87,18 @@ pub fn swap(
         adaptive_fee_info,
     )?;
 
+    #[cfg(feature = "verif")]
+    crate::verif::push(crate::verif::Event::SwapBegin {
+        amount,
+        sqrt_price_limit,
+        amount_specified_is_input,
+        a_to_b,
+        timestamp,
+        sqrt_price: whirlpool.sqrt_price,
+        tick_current_index: whirlpool.tick_current_index,
+        liquidity: whirlpool.liquidity,
+    });
+
     while amount_remaining > 0 && adjusted_sqrt_price_limit != curr_sqrt_price {
         let (next_array_index, next_tick_index) = swap_tick_sequence
             .get_next_initialized_tick_index(
@@ -105,6 +117,15 @@ pub fn swap(
             let total_fee_rate = fee_rate_manager.get_total_fee_rate();
             let (bounded_sqrt_price_target, adaptive_fee_update_skipped) =
                 fee_rate_manager.get_bounded_sqrt_price_target(sqrt_price_target, curr_liquidity);
+            #[cfg(feature = "verif")]
+            let (verif_fee_view, verif_remaining_before, verif_liquidity, verif_price_before) = (
+                crate::verif::fee_view(&fee_rate_manager),
+                amount_remaining,
+                curr_liquidity,
+                curr_sqrt_price,
+            );
+            #[cfg(feature = "verif")]
+            let mut verif_crossed: Option<(i32, bool, u128)> = None;
 
             let swap_computation = compute_swap(
                 amount_remaining,
@@ -184,6 +205,11 @@ pub fn swap(
                     )?;
                 }
 
+                #[cfg(feature = "verif")]
+                {
+                    verif_crossed = Some((next_tick_index, next_tick_initialized, curr_liquidity));
+                }
+
                 let tick_offset = swap_tick_sequence.get_tick_offset(
                     next_array_index,
                     next_tick_index,
@@ -213,6 +239,28 @@ pub fn swap(
             }
 
             curr_sqrt_price = swap_computation.next_price;
+
+            #[cfg(feature = "verif")]
+            crate::verif::push(crate::verif::Event::SwapStep(crate::verif::StepRecord {
+                sqrt_price_before: verif_price_before,
+                sqrt_price_target,
+                bounded_sqrt_price_target,
+                next_tick_index,
+                next_tick_sqrt_price,
+                total_fee_rate,
+                liquidity: verif_liquidity,
+                amount_remaining_before: verif_remaining_before,
+                amount_in: swap_computation.amount_in,
+                amount_out: swap_computation.amount_out,
+                next_price: swap_computation.next_price,
+                fee_amount: swap_computation.fee_amount,
+                crossed: verif_crossed,
+                tick_index_after: curr_tick_index,
+                adaptive_fee_update_skipped,
+                protocol_fee_after: curr_protocol_fee,
+                fee_growth_global_input_after: curr_fee_growth_global_input,
+                fee: verif_fee_view,
+            }));
 
             if !adaptive_fee_update_skipped {
                 // Note: curr_sqrt_price != bounded_sqrt_price_target implies the end of the loop.
